@@ -241,6 +241,9 @@ func exec(kind string, in []string) []string {
 	if kind == "stress" {
 		return execStress(in)
 	}
+	if kind == "overlap" {
+		return execOverlap(in)
+	}
 	if kind == "tls" {
 		return execTLS(in)
 	}
